@@ -203,6 +203,20 @@ def np_qr(A, mode='reduced'):
                     jj, s = rowof[i]
                     R[jj, j] = s * a
             return Q, R
+    # columns with pairwise disjoint supports (every row holds at most one non-zero),
+    # all columns non-zero, tall: Q = normalised columns, R = diag(column norms)
+    if m >= n and all(sum(0 if _is_zero(A[i, j]) else 1 for j in range(n)) <= 1 for i in range(m)) and \
+            all(any(not _is_zero(A[i, j]) for i in range(m)) for j in range(n)):
+        Q = _zeros((m, n))
+        R = _zeros((n, n))
+        for j in range(n):
+            nrm = Sym.lift(sum((Sym.lift(A[i, j]) * Sym.lift(A[i, j]) for i in range(m)), Sym.const(0))).sqrt()
+            s_ = _sign('qs')
+            for i in range(m):
+                if not _is_zero(A[i, j]):
+                    Q[i, j] = s_ * Sym.lift(A[i, j]) / nrm
+            R[j, j] = s_ * nrm
+        return Q, R
     ctx = _ctx()
     if ctx.opts.get('relaxed_qr'):
         # Q := Z, R := I  (valid whenever the caller only uses Q Q[I]^-1 and
@@ -262,6 +276,19 @@ def sp_rq(A, mode='full', check_finite=True, **kw):
                     l, s = colof[j]
                     R[i, l] = s * a
             return R, Q
+    # rows with pairwise disjoint supports, all rows non-zero, wide: R = diag(row norms), Q = normalised rows
+    if m <= n and all(sum(0 if _is_zero(A[i, j]) else 1 for i in range(m)) <= 1 for j in range(n)) and \
+            all(any(not _is_zero(A[i, j]) for j in range(n)) for i in range(m)):
+        R = _zeros((m, m))
+        Q = _zeros((m, n))
+        for i in range(m):
+            nrm = Sym.lift(sum((Sym.lift(A[i, j]) * Sym.lift(A[i, j]) for j in range(n)), Sym.const(0))).sqrt()
+            s_ = _sign('rs')
+            for j in range(n):
+                if not _is_zero(A[i, j]):
+                    Q[i, j] = s_ * Sym.lift(A[i, j]) / nrm
+            R[i, i] = s_ * nrm
+        return R, Q
     raise Unmodelled('rq of a matrix that is neither registered nor quasi-diagonal')
 
 
